@@ -260,7 +260,7 @@ func (w *msWorld) step() bool {
 	r.Steps++
 	w.nextID++
 	val := w.nextID
-	switch c.Weighted([]int{12, 8, 5, 10, 5, 6, 6, 5, 6, 4, 4, 4}) {
+	switch c.Weighted([]int{12, 8, 5, 10, 5, 6, 6, 5, 6, 4, 4, 4, 3}) {
 	case 0: // Map.Set on any earlier value (branching)
 		v := w.maps[c.Choose(len(w.maps))]
 		k := w.key()
@@ -481,6 +481,8 @@ func (w *msWorld) step() bool {
 			return false
 		}
 		return w.checkMap(nv, 3)
+	case 12: // maps and sets keyed by other registered key types
+		return w.typedKeys()
 	case 11: // JSON / YAML round trip of a set
 		v := w.sets[c.Choose(len(w.sets))]
 		if !printable(v.model) {
@@ -616,6 +618,127 @@ func (w *msWorld) richRoundTrip(r *simcore.Recorder, v *mapVal, useJSON bool) bo
 			r.Violate("C17", kind, "m%d with structured values: after decoding %q Get(%q)=%+v,%v want %+v", v.id, bs, k, got, ok, want)
 			return false
 		}
+	}
+	return true
+}
+
+// int32 keys that are valid, invalid and boundary code points when misread as runes, and negative numbers
+var i32Keys = []int32{0, 1, 65, -1, -2, 0xD7FF, 0xD800, 0xDFFF, 0xE000, 0xFFFD, 0x10FFFF, 0x110000, 1 << 30, -1 << 31}
+var u16Keys = []uint16{0, 1, 255, 256, 257, 0xfffe, 0xffff}
+
+// typedKeys runs a short history on a map and a set keyed by a fixed-width integer type: the collection must
+// behave as the mathematical map/set over those keys, ordered by the key's big-endian bytes.
+func (w *msWorld) typedKeys() bool {
+	c := w.c
+	r := w.r
+	w.probes["typed-keys"]++
+	if c.Choose(2) == 0 {
+		var m part.Map[int32, int]
+		var s part.Set[int32]
+		model := map[int32]int{}
+		var olds []part.Map[int32, int]
+		var oldModels []map[int32]int
+		n := 2 + c.Choose(10)
+		for i := 0; i < n; i++ {
+			k := i32Keys[c.Choose(len(i32Keys))]
+			if c.Choose(4) == 0 {
+				m = m.Delete(k)
+				s = s.Delete(k)
+				delete(model, k)
+			} else {
+				m = m.Set(k, i)
+				s = s.Set(k)
+				model[k] = i
+			}
+			olds = append(olds, m)
+			cp := map[int32]int{}
+			for a, b := range model {
+				cp[a] = b
+			}
+			oldModels = append(oldModels, cp)
+		}
+		check := func(what string, m part.Map[int32, int], model map[int32]int) bool {
+			if m.Len() != len(model) {
+				r.Violate("C17", "typed-len", "%s: Map[int32].Len()=%d want %d (keys %v)", what, m.Len(), len(model), model)
+				return false
+			}
+			for _, k := range i32Keys {
+				v, ok := m.Get(k)
+				mv, mok := model[k]
+				if ok != mok || (ok && v != mv) {
+					r.Violate("C17", "typed-get", "%s: Map[int32].Get(%d)=(%d,%v) want (%d,%v)", what, k, v, ok, mv, mok)
+					return false
+				}
+			}
+			var got []int32
+			for k := range m.All() {
+				got = append(got, k)
+			}
+			want := make([]int32, 0, len(model))
+			for k := range model {
+				want = append(want, k)
+			}
+			sort.Slice(want, func(i, j int) bool { return uint32(want[i]) < uint32(want[j]) })
+			if fmt.Sprint(got) != fmt.Sprint(want) {
+				r.Violate("C17", "typed-all", "%s: Map[int32].All() yields keys %v want %v", what, got, want)
+				return false
+			}
+			return true
+		}
+		for i := range olds {
+			if !check(fmt.Sprintf("int32 map after %d of %d writes", i+1, n), olds[i], oldModels[i]) {
+				return false
+			}
+		}
+		if s.Len() != len(model) {
+			r.Violate("C17", "typed-len", "Set[int32].Len()=%d want %d (members %v)", s.Len(), len(model), model)
+			return false
+		}
+		for _, k := range i32Keys {
+			if _, want := model[k]; s.Has(k) != want {
+				r.Violate("C17", "typed-has", "Set[int32].Has(%d)=%v want %v", k, !want, want)
+				return false
+			}
+		}
+		bs, err := json.Marshal(m)
+		var out part.Map[int32, int]
+		if err == nil {
+			err = json.Unmarshal(bs, &out)
+		}
+		if err != nil {
+			r.Violate("C17", "typed-json", "Map[int32] JSON: %v", err)
+			return false
+		}
+		return check(fmt.Sprintf("int32 map decoded from %s", bs), out, model)
+	}
+	var m part.Map[uint16, int]
+	model := map[uint16]int{}
+	n := 2 + c.Choose(8)
+	for i := 0; i < n; i++ {
+		k := u16Keys[c.Choose(len(u16Keys))]
+		if c.Choose(4) == 0 {
+			m = m.Delete(k)
+			delete(model, k)
+		} else {
+			m = m.Set(k, i)
+			model[k] = i
+		}
+	}
+	if m.Len() != len(model) {
+		r.Violate("C17", "typed-len", "Map[uint16].Len()=%d want %d (keys %v)", m.Len(), len(model), model)
+		return false
+	}
+	var got []uint16
+	for k, v := range m.All() {
+		got = append(got, k)
+		if model[k] != v {
+			r.Violate("C17", "typed-get", "Map[uint16] yields %d=%d want %d", k, v, model[k])
+			return false
+		}
+	}
+	if !sort.SliceIsSorted(got, func(i, j int) bool { return got[i] < got[j] }) || len(got) != len(model) {
+		r.Violate("C17", "typed-all", "Map[uint16].All() yields keys %v for %v", got, model)
+		return false
 	}
 	return true
 }
